@@ -38,4 +38,23 @@ PROPS["C02"] = {
                     "process death is modelled at call boundaries (restart op); death inside a call is C04"],
 }
 
+PROPS["C10"] = {
+    "modules": ["C10"],
+    "required_theorems": ["C10_holds", "step_roll"],
+    "monitors": ["C10"],
+    "fields": ["ret", "net", "pj", "pd", "sj"],
+    "campaign": camp([("rollback", 500), ("lifecycle", 300), ("mixed", 300), ("chaos", 150), ("release", 100)],
+                     [("rollback", 8000), ("lifecycle", 5000), ("mixed", 4000), ("chaos", 3000), ("release", 2000), ("damage", 2000), ("signing", 2000)]),
+    "assumptions": ["as in the property, the guarantee lasts until the number is installed again; the monitor also forgets at a release change and at state-file damage"],
+}
+
+# Properties whose theorems are still being written: monitors + correspondence only (not in MANIFEST).
+for _p, _mon, _camp in [
+    ("C01", ["C01"], camp(LIFE_Q, LIFE_T)), ("C03", ["C03"], camp(LIFE_Q, LIFE_T)), ("C05", ["C05"], camp(LIFE_Q, LIFE_T)),
+    ("C08", ["C08"], camp(LIFE_Q, LIFE_T)), ("C09", ["C09"], camp(LIFE_Q, LIFE_T)), ("C13", ["C13"], camp(LIFE_Q, LIFE_T)),
+    ("C17", ["C17"], camp(LIFE_Q, LIFE_T)), ("C18", ["C18"], camp(LIFE_Q, LIFE_T)), ("C19", ["C19"], camp(LIFE_Q, LIFE_T)),
+    ("C20", ["C20"], camp(LIFE_Q, LIFE_T))]:
+    if _p not in PROPS:
+        PROPS[_p] = {"modules": [], "monitors": _mon, "campaign": _camp, "internal": True}
+
 SPECIAL = {}
